@@ -101,6 +101,42 @@ def rng_vectors(tier):
         out.append(base("hr", 2, 2, None, 1, 2, 0.0, 0.0, True, skew=skew))
         out.append(base("ha", 2, 3, None, 1, 2, 0.0, 0.0, False, skew=skew))
         out.append(base("spa", 2, 2, 2, 1, 2, 0.0, 1.0, True, skew=skew))
+    # shapes beyond 3: uneven project/lecturer shares (n2 % n3 in 1..n3-2)
+    for n2, n3 in ((4, 3), (5, 3)):
+        for twopl in (False, True):
+            out.append(base("spa", 1, n2, n3, 1, 1, 0.0, 0.0, twopl))
+            out.append(base("spa", 2, n2, n3, 1, 1, 0.0, 1.0 if twopl else 0.0, twopl))
+            out.append(base("spa", 1, n2, n3, 2, 2, 1.0, 0.0, twopl))
+    out.append(base("spa", 1, 4, 3, 3, 3, 0.0, 0.0, True))
+    out.append(base("spa", 1, 4, 2, 3, 3, 0.0, 0.0, True))
+    out.append(base("hr", 1, 4, None, 1, 2, 0.0, 0.0, True))
+    out.append(base("hr", 4, 1, None, 1, 1, 0.0, 1.0, True))
+    out.append(base("ha", 1, 4, None, 2, 3, 1.0, 0.0, False))
+    # optional parameters omitted (defaults) and lower quotas / targets given
+    for mp in ("ha", "hr", "spa", "sm"):
+        for variant in range(4):
+            a = base(mp, 2, 2, 2 if mp == "spa" else None, 1, 2, 0.0, 0.0,
+                     mp in ("hr", "sm") or (mp == "spa" and variant % 2 == 1))
+            a["t1_given"] = variant in (2,)
+            a["t2_given"] = variant in (2,)
+            a["lq_given"] = variant in (1, 2)
+            if mp == "spa":
+                a["lt_given"] = variant in (1,)
+                a["llq_given"] = variant in (1,)
+                if not a["lt_given"]:
+                    a["lt"] = 0.0
+                    a["llq"] = 0
+            out.append(a)
+    for lq, llq, lt in ((1, 1, 2), (2, 2, 2), (0, 1, 1), (2, 0, 3)):
+        for n3 in (1, 2, 3):
+            for twopl in (False, True):
+                out.append(base("spa", 2, 2, n3, 1, 2, 0.0, 0.0, twopl,
+                                lq=lq, uq=3, llq=llq, lt=lt, luq=max(lt, n3) + 1))
+                out.append(base("spa", 1, 2, n3, 1, 1, 0.0, 0.0, twopl,
+                                lq=lq, uq=3, llq=llq, lt=lt, luq=max(lt, n3) + 1))
+    for lq in (1, 2):
+        out.append(base("hr", 2, 2, None, 1, 2, 0.0, 0.0, True, lq=lq, uq=3))
+        out.append(base("ha", 2, 2, None, 1, 2, 0.0, 0.0, False, lq=lq, uq=3))
     out.append(base("hr", 1, 2, None, 1, 2, 0.5, 0.5, True, numinst=2))
     out.append(base("spa", 2, 2, 1, 1, 1, 0.0, 0.0, True, numinst=2))
     out.append(base("ha", 2, 2, None, 1, 1, 1.0, 0.0, False, numinst=2))
@@ -117,6 +153,17 @@ def quota_vectors():
                 for lq in range(0, uq + 1):
                     out.append(base(mp, n1, n2, None, 1, 1, 0.0, 0.0, mp == "hr",
                                     lq=lq, uq=uq))
+    for n2, n3 in ((4, 3), (5, 3), (7, 3), (6, 4), (7, 5), (3, 5)):
+        for twopl in (False, True):
+            a = base("spa", 2, n2, n3, 1, 1, 0.0, 0.0, twopl, uq=n2 + 1, luq=n3 + 2, lt=n3 + 1,
+                     llq=1)
+            out.append(a)
+            b = dict(a)
+            b["lt_given"] = False
+            b["llq_given"] = False
+            b["lq_given"] = False
+            b["lt"], b["llq"] = 0.0, 0
+            out.append(b)
     for n2, n3 in ((1, 1), (2, 1), (2, 2), (3, 2), (2, 3), (3, 3), (1, 3)):
         for uq in range(n2, 2 * n2 + 1):
             for lq in (0, 1, uq):
